@@ -77,6 +77,8 @@ struct ActRun {
   double sleep_begin = -1, sleep_end = -1;
   std::string wait_result = "-";
   double wait_end         = -1;
+  std::string kstate      = "-"; // completion as seen in the kernel
+  double kdate            = -1;
 };
 
 static std::vector<std::string> split(const std::string& s, char sep)
@@ -117,6 +119,30 @@ static ActRun* find_run(const std::string& id)
       return &r;
   fprintf(stderr, "unknown activity %s\n", id.c_str());
   exit(3);
+}
+
+/* Kernel-level truth about completion, independent of who waits for the activity: noticed at every time advance (after
+ * the models updated their actions, before the kernel cleans them) and after every controller step. */
+static void poll_done()
+{
+  using AState = simgrid::kernel::resource::Action::State;
+  for (auto& r : runs) {
+    if (not r.act || not r.started || r.kstate != "-")
+      continue;
+    auto* impl   = r.act->get_impl();
+    auto* action = impl->model_action_;
+    if (action != nullptr) {
+      if (action->get_state() == AState::FINISHED)
+        r.kstate = "FINISHED";
+      else if (action->get_state() == AState::FAILED)
+        r.kstate = "FAILED";
+    } else if (impl->get_state() != simgrid::kernel::activity::State::RUNNING &&
+               impl->get_state() != simgrid::kernel::activity::State::WAITING) {
+      r.kstate = impl->get_state() == simgrid::kernel::activity::State::DONE ? "FINISHED" : "FAILED";
+    }
+    if (r.kstate != "-")
+      r.kdate = sg4::Engine::get_clock();
+  }
 }
 
 static void emit_sample(const char* where)
@@ -293,7 +319,6 @@ static void apply_event(const EvSpec& ev)
 
 static void controller(const Case* c)
 {
-  std::vector<sg4::ActorPtr> waiters;
   // merged timeline: (date, seq) ; starts come before events of the same date when declared first
   struct Item {
     double date;
@@ -324,30 +349,31 @@ static void controller(const Case* c)
         r.started = true;
       } else {
         start_activity(r);
-        ActRun* rp = &r;
-        waiters.push_back(sg4::Host::by_name("ctl")->add_actor("waiter-" + r.spec.id, [rp]() {
-          try {
-            rp->act->wait();
-            rp->wait_result = "ok";
-          } catch (const simgrid::HostFailureException&) {
-            rp->wait_result = "HostFailure";
-          } catch (const simgrid::NetworkFailureException&) {
-            rp->wait_result = "NetworkFailure";
-          } catch (const simgrid::StorageFailureException&) {
-            rp->wait_result = "StorageFailure";
-          } catch (const simgrid::CancelException&) {
-            rp->wait_result = "Cancel";
-          } catch (const simgrid::Exception&) {
-            rp->wait_result = "Exception";
-          }
-          rp->wait_end = sg4::Engine::get_clock();
-        }));
       }
     } else
       apply_event(c->evs[it.idx]);
+    poll_done();
   }
-  for (auto& w : waiters)
-    w->join();
+  poll_done();
+  for (auto& r : runs) {
+    if (not r.act)
+      continue;
+    try {
+      r.act->wait();
+      r.wait_result = "ok";
+    } catch (const simgrid::HostFailureException&) {
+      r.wait_result = "HostFailure";
+    } catch (const simgrid::NetworkFailureException&) {
+      r.wait_result = "NetworkFailure";
+    } catch (const simgrid::StorageFailureException&) {
+      r.wait_result = "StorageFailure";
+    } catch (const simgrid::CancelException&) {
+      r.wait_result = "Cancel";
+    } catch (const simgrid::Exception&) {
+      r.wait_result = "Exception";
+    }
+    r.wait_end = sg4::Engine::get_clock();
+  }
   if (c->horizon > sg4::Engine::get_clock())
     sg4::this_actor::sleep_until(c->horizon);
   if (g_energy >= 1) {
@@ -362,7 +388,7 @@ static void controller(const Case* c)
 
 static int run_case(const Case& c)
 {
-  std::vector<std::string> args = {"res", "--log=root.thres:error"};
+  std::vector<std::string> args = {"res", "--log=root.thres:error", "--cfg=contexts/stack-size:256", "--cfg=contexts/guard-size:0"};
   for (auto const& k : c.cfg)
     args.push_back("--cfg=" + k);
   std::vector<char*> argv;
@@ -473,22 +499,24 @@ static int run_case(const Case& c)
       printf("ADV %.17g\n", delta);
       emit_sample("adv");
     });
+  sg4::Engine::on_time_advance_cb([](double) { poll_done(); });
   ctl->add_actor("controller", [&c]() { controller(&c); });
   e.run();
 
   for (auto& r : runs) {
     if (r.spec.kind == "sleep") {
-      printf("A %s sleep start=%.17g finish=%.17g state=%s seen=%.17g wait=-\n", r.spec.id.c_str(), r.sleep_begin,
+      printf("A %s sleep start=%.17g finish=%.17g state=%s kdate=%.17g sstate=- wait=-\n", r.spec.id.c_str(), r.sleep_begin,
              r.sleep_end, r.sleep_end >= 0 ? "FINISHED" : "UNFINISHED", r.sleep_end);
       continue;
     }
     if (not r.act) {
-      printf("A %s %s start=-1 finish=-1 state=NEVER seen=-1 wait=-\n", r.spec.id.c_str(), r.spec.kind.c_str());
+      printf("A %s %s start=-1 finish=-1 state=NEVER kdate=-1 sstate=- wait=-\n", r.spec.id.c_str(), r.spec.kind.c_str());
       continue;
     }
-    printf("A %s %s start=%.17g finish=%.17g state=%s seen=%.17g wait=%s waitend=%.17g istate=%s\n", r.spec.id.c_str(),
-           r.spec.kind.c_str(), r.act->get_start_time(), r.act->get_finish_time(), r.act->get_state_str(), r.seen_finish,
-           r.wait_result.c_str(), r.wait_end, r.act->get_impl()->get_state_str());
+    printf("A %s %s start=%.17g finish=%.17g state=%s kdate=%.17g sstate=%s wait=%s waitend=%.17g\n", r.spec.id.c_str(),
+           r.spec.kind.c_str(), r.act->get_start_time(), r.act->get_finish_time(),
+           r.kstate == "-" ? "UNFINISHED" : r.kstate.c_str(), r.kdate, r.act->get_state_str(), r.wait_result.c_str(),
+           r.wait_end);
   }
   printf("CLOCK %.17g\n", sg4::Engine::get_clock());
   fflush(stdout);
